@@ -1,5 +1,5 @@
 """C11 — channels and signals: every message delivered once, in order, no stranded peer (structural part)."""
-from core import strip, strip_parens, is_field, order_ge, key_str, key_mentions
+from core import is_atomic_load, strip, strip_parens, is_field, order_ge, key_str, key_mentions
 from facts import AnalysisBroken
 from rules import (field_load, check_init, through_local, nodeset, callpred, atom_from, reach, ev, Unevaluable, ret_const, is_var_load)
 from props import c01, c16
@@ -179,8 +179,8 @@ def check_bounded(ctx, P):
         o = ctx.ob("bounded.recv", f, "load high before low; the message is consumed (slot cleared, then low advanced by one with release or stronger) exactly when "
                    "the slot is non-NULL and high > low; only then is it returned", "advancing low for an unwritten slot skips a message a sender is about to write; "
                    "advancing before clearing lets a sender refill the slot and the clear then erases the new message")
-        lh = [l for l in f.loads_of(BC, "high") if l.node.k == "AtomicExpr"]
-        ll = [l for l in f.loads_of(BC, "low") if l.node.k == "AtomicExpr"]
+        lh = [l for l in f.loads_of(BC, "high") if is_atomic_load(l.node)]
+        ll = [l for l in f.loads_of(BC, "low") if is_atomic_load(l.node)]
         st = [s for s in f.stores_to(BC, "low")]
         clr = [s for s in f.stores() if strip(s.target).k == "ArraySubscriptExpr" and is_field(f.key(strip(s.target).kids[0], True), BC, "buffer")]
         bad = None
